@@ -10,8 +10,8 @@ from pyvc.api import Task
 PROPERTY = "C17"
 FILE = "src/pkgcore/resolver/state.py"
 LEVEL = "other"
-EXPLANATION = ("bounded stand-in only (nothing proved): every history of up to 4 planner operations over 4 packages (two sharing "
-               "key and slot), 3 blockers with fixed match tables and 2 choice points is applied to the real plan_state, rolled back "
+EXPLANATION = ("bounded stand-in only (nothing proved): every history of up to 4 planner operations over 5 packages (two sharing "
+               "key and slot, two equal but distinct: one version from two repositories), 3 blockers with fixed match tables and 2 choice points is applied to the real plan_state, rolled back "
                "to every earlier position, and the resulting state (slot occupancy, limiters, package bindings, reverse blockers, "
                "blocker reference counts, vdb filter, forced restrictions, plan length) is compared, as multisets, with the state "
                "obtained by replaying the surviving prefix on a fresh plan_state.")
@@ -22,21 +22,34 @@ MANIFEST = {
             "dict-of-mutable-lists structure with aliasing that the VC generator does not model (DESIGN section 4, C17 addendum).",
     "technique": "bounded exhaustive enumeration of operation histories on the real code (stand-in for contract verification; labelled bounded)",
 }
-ASSUMPTIONS = ["bounded universe: 4 packages, 3 blockers, 2 choice points, histories of <= 4 operations",
+ASSUMPTIONS = ["bounded universe: 5 packages, 3 blockers, 2 choice points, histories of <= 4 operations",
                "states are compared as multisets (a reverted remove re-appends at the end of a slot list)"]
 
 
 class Pkg:
+    """compares and hashes like pkgcore packages do: by key and version, not by identity or repository (foo-1 and foo-1@bin are equal,
+    distinct objects: the same version offered by two repositories)"""
+
     def __init__(self, name, key, slot):
         self.name, self.key, self.slot = name, key, slot
+        self.ident = (key, name.split("@")[0])
 
     def __repr__(self):
         return self.name
 
+    def __eq__(self, o):
+        return isinstance(o, Pkg) and self.ident == o.ident
+
+    def __ne__(self, o):
+        return not self == o
+
+    def __hash__(self):
+        return hash(self.ident)
+
 
 def _universe():
     from pkgcore.restrictions import restriction
-    pkgs = [Pkg("foo-1", "cat/foo", "0"), Pkg("foo-2", "cat/foo", "0"), Pkg("foo-3", "cat/foo", "1"), Pkg("bar-1", "cat/bar", "0")]
+    pkgs = [Pkg("foo-1", "cat/foo", "0"), Pkg("foo-2", "cat/foo", "0"), Pkg("foo-3", "cat/foo", "1"), Pkg("bar-1", "cat/bar", "0"), Pkg("foo-1@bin", "cat/foo", "0")]
 
     class Blocker(restriction.base):
         __slots__ = ("name", "key", "hits")
@@ -47,7 +60,7 @@ def _universe():
             object.__setattr__(self, "hits", hits)
 
         def match(self, pkg):
-            return pkg.name in self.hits
+            return pkg.name.split("@")[0] in self.hits
 
         def __repr__(self):
             return self.name
@@ -93,11 +106,11 @@ def _ops(pkgs, blockers):
         return S.add_op(c, p, force=force).apply(plan)
 
     def remove(plan, p):
-        need(p in plan.pkg_choices)
+        need(any(k is p for k in plan.pkg_choices))
         return S.remove_op(plan.pkg_choices[p], p).apply(plan)
 
     def replace(plan, p):
-        need(p not in plan.pkg_choices and plan.state.get_conflicting_slot(p) is not None)
+        need(not any(k is p for k in plan.pkg_choices) and plan.state.get_conflicting_slot(p) is not None)
         if plan.state.check_limiters(plan.state.get_conflicting_slot(p)):
             plan.kf_replace_of_blocked = True  # input feature used by known finding KF-C17-1
         return S.replace_op(choices[1], p).apply(plan)
@@ -175,7 +188,7 @@ def enum_histories(seed):
                                             "replace_of_blocked_occupant": getattr(plan, "kf_replace_of_blocked", False)},
                                   "detail": f"history {[ops[i][0] for i in h]} rolled back to position {cut}: state differs from replaying the prefix: {diff}"})
     return {"name": "C17.plan_state.backtrack.bounded_enumeration",
-            "bound": f"histories of <= {maxlen} operations (length {maxlen} sampled 1/7) over {len(ops)} operations on 4 packages, 3 blockers, 2 choice points; every rollback position",
+            "bound": f"histories of <= {maxlen} operations (length {maxlen} sampled 1/7) over {len(ops)} operations on 5 packages, 3 blockers, 2 choice points; every rollback position",
             "cases": cases, "failures": fails}
 
 
